@@ -24,6 +24,7 @@ CHECKS = {
  "C07": dict(engine="symtorch+z3", tech="real fit/_shuffle_data executed with a SYMBOLIC permutation (z3 Int index vectors, Distinct) and symbolic randint draws; one z3 query per epoch over all permutations decides pairing / partition / negative-row source", design="2/C07"),
  "C16": dict(engine="symtorch+z3", tech="structural induction: one solver-checked step per operator overload with stub children returning arbitrary symbolic vectors; z3 on residuals; random trees vs interpreter", design="2/C16"),
  "C20": dict(engine="symtorch+z3", tech="symbolic execution of constructors / reinitialise / fit guards / a symbolic SGD training run with a symbolic random tape; identities decided by z3, identity/independence facts executed", design="2/C20"),
+ "C06": dict(engine="symtorch+z3", tech="real fit loop executed with symbolic parameters, symbolic learning rate and scripted randomness; per-parameter .grad and SGD update identities decided by z3 on residuals; optimizer/scheduler call counts by pathfork", design="2/C06"),
  "C15": dict(engine="symtorch+z3", tech="symbolic execution of every cplx function vs complex-scalar arithmetic; z3 on residuals", design="2/C15"),
 }
 CHECKS.update(json.load(open(os.path.join(HERE, "bin", "manifest_extra.json"))) if os.path.exists(os.path.join(HERE, "bin", "manifest_extra.json")) else {})
